@@ -5,7 +5,7 @@ from .common import COMMON_REAL, COMMON_STUB
 
 def profile(st):
     return {'n_routes': 1, 'allow_data_symbol': False, 'minutes': (120, 1500),
-            'trading_tfs': ['1m', '3m', '5m', '15m', '30m', '1h'], 'data_tfs': ['15m', '30m', '1h', '4h'], 'p_data_route': 0.3,
+            'trading_tfs': ['1m', '3m', '5m', '15m', '30m', '1h'], 'data_tfs': ['5m', '15m', '30m', '45m', '1h', '4h'], 'p_data_route': 0.5,
             'p_small_lattice': 0.0, 'p_warmup': 0.3,
             'mode': st.choice(['cross', 'cross', 'isolated'], 'mode'),
             'program': {'p_enter': st.choice([0.05, 0.15, 0.4], 'pe'),
@@ -15,7 +15,8 @@ def profile(st):
                         'exit_dist': st.choice([(40, 120), (80, 300), (200, 600)], 'ed'),
                         'wrong_side_p': 0.0, 'near_band_p': 0.0, 'p_modify': st.choice([0.0, 0.02], 'pm'),
                         'p_liquidate': st.choice([0.0, 0.01], 'pl'), 'p_dup': 0.0, 'p_keep_entry': st.choice([0.0, 0.5], 'pk'),
-                        'size_frac': st.choice([0.05, 0.2], 'sf')}}
+                        'size_frac': st.choice([0.05, 0.2], 'sf'),
+                        'ohlc_entries': st.chance(0.5, 'ohlc'), 'data_gate': st.chance(0.6, 'dgate')}}
 
 
 CHECK = SchedulerSwapCheck(
